@@ -183,10 +183,15 @@ Shape(k) ==       \* bodies of the grouping g1
     [] k = 7 -> << Stmt("container", "k1", << Stmt("if-feature", "f1", <<>>), Stmt("if-feature", "f2", <<>>), Stmt("if-feature", "f3", <<>>),
                                                Stmt("leaf-list", "bl", << Stmt("type", "string", <<>>), Stmt("min-elements", 1, <<>>), Stmt("max-elements", 8, <<>>) >>),
                                                Leaf("x") >>) >>
+    \* an identityref whose base is named without prefix: every module of the program defines an identity "local"
+    [] k = 8 -> << Stmt("container", "k1", << Stmt("leaf", "x", << Stmt("type", "identityref", << Stmt("base", "local", <<>>) >>) >>),
+                                               Stmt("leaf", "y", << Stmt("type", "tdd", <<>>) >>) >>) >>
 G1(k) == Stmt("grouping", "g1", Shape(k))
 \* where g1 (and the g2 next to it) is defined: d's top level, d's submodule, u's top level, u's submodule
-Tdd == Stmt("typedef", "tdd", << Stmt("type", "string", <<>>), Stmt("default", "tdv", <<>>) >>)     \* the one typedef with a default
-DefD == << Tdd, Stmt("grouping", "g2", << Leaf("d2") >>) >>
+\* the one typedef with a default; every module that defines it gives it a default of its own, so that WHICH tdd a type
+\* statement inside a grouping denotes (the definer's, not the user's) shows in the default values in force
+TddOf(m) == Stmt("typedef", "tdd", << Stmt("type", "string", <<>>), Stmt("default", "tdv-" \o m, <<>>) >>)
+DefD == << TddOf("d"), Stmt("identity", "local", <<>>), Stmt("grouping", "g2", << Leaf("d2") >>) >>
 UseSite(site, ref) ==     \* a statement of u that uses ref at the given kind of place
   CASE site = "top" -> Stmt("container", "s_" \o site, << [ref EXCEPT !.kids = << Stmt("if-feature", "fa", <<>>) >>] >>)      \* (kept inside a container so that two sites never collide)
     [] site = "list" -> Stmt("list", "s_list", << Stmt("key", "kk", <<>>), Leaf("kk"), ref >>)
@@ -207,7 +212,7 @@ UsesProg(k, def, s1, s2, mut) ==
   LET ref == IF def \in {"d", "ds"} THEN Uses("d", "g1") ELSE IF def = "dd" THEN Uses("dd", "g1") ELSE Uses("", "g1")
       \* def = "wrap": u's own g1 wraps d's grouping of the same name
       \* u has a g2 of its own: names inside g1 must not bind to it when g1 lives in d
-      uOwn == << Tdd, Stmt("grouping", "g2", << Leaf("u2") >>) >>
+      uOwn == << TddOf("u"), Stmt("identity", "local", <<>>), Stmt("grouping", "g2", << Leaf("u2") >>) >>
       uBody == (IF def = "u" THEN << G1(k) >> ELSE <<>>)
                \o (IF def = "wrap" THEN << Stmt("grouping", "g1", << Uses("d", "g1"), Leaf("wy") >>) >> ELSE <<>>) \o uOwn \o << UseSite(s1, ref) >> \o (IF s2 # s1 THEN << UseSite(s2, ref) >> ELSE <<>>)
       \* when g1 lives in module dd (prefix dd), module d (prefix d, imported first) holds a decoy of the same name
@@ -229,7 +234,7 @@ UsesProg(k, def, s1, s2, mut) ==
       w == Mod("w", ImpU, <<>>, wBody)
   IN Prog(("u" :> u) @@ ("d" :> d) @@ ("w" :> w)
           @@ (IF def = "us" THEN ("us" :> Sub("us", "u", ImpD, <<>>, << G1(k) >>)) ELSE << >>)
-          @@ (IF def = "dd" THEN ("dd" :> Mod("dd", NoImp, <<>>, << Tdd, Stmt("grouping", "g2", << Leaf("dd2") >>), G1(k) >>)) ELSE << >>)
+          @@ (IF def = "dd" THEN ("dd" :> Mod("dd", NoImp, <<>>, << TddOf("dd"), Stmt("identity", "local", <<>>), Stmt("grouping", "g2", << Leaf("dd2") >>), G1(k) >>)) ELSE << >>)
           @@ (IF def = "ds" THEN ("ds" :> Sub("ds", "d", NoImp, <<>>, << G1(k), Stmt("grouping", "g2", << Leaf("ds2") >>) >>)) ELSE << >>))
 MutOK(k, mut) == /\ mut \in {"inext", "mandatory"} => k = 6
                  /\ mut = "llbounds" => k = 7
@@ -238,9 +243,9 @@ MutOK(k, mut) == /\ mut \in {"inext", "mandatory"} => k = 6
 Muts == {"none", "augment", "notsupp", "config", "maxelem", "inaction", "inext", "llbounds", "mandatory"}
 Defs == {"d", "ds", "u", "dd", "wrap"}
 SUses(dummy) ==
-  { UsesProg(k[1], def, s1, s2, k[2]) : k \in {x \in (1..7) \X Muts : MutOK(x[1], x[2])}, def \in Defs, s1 \in Sites, s2 \in Sites }
+  { UsesProg(k[1], def, s1, s2, k[2]) : k \in {x \in (1..8) \X Muts : MutOK(x[1], x[2])}, def \in Defs, s1 \in Sites, s2 \in Sites }
 SUsesQuick(dummy) ==
-  { UsesProg(k[1], def, s1, s2, k[2]) : k \in {x \in (1..7) \X Muts : MutOK(x[1], x[2])}, def \in Defs,
+  { UsesProg(k[1], def, s1, s2, k[2]) : k \in {x \in (1..8) \X Muts : MutOK(x[1], x[2])}, def \in Defs,
                                         s1 \in {"top", "nested", "case"}, s2 \in {"top", "list", "notif", "cfgfalse"} }
 
 \* ---- S_dev: deviations (C08) -----------------------------------------------------------
@@ -250,7 +255,7 @@ DevBase ==
                               Stmt("leaf-list", "gll", << S1("type", "string"), S1("min-elements", 2), S1("max-elements", 5) >>) >>),
      Stmt("rpc", "rp", << Stmt("input", "input", << Leaf("ri") >>), Stmt("output", "output", << Leaf("ro"), Leaf("ro2") >>) >>),
      LeafD("ld", "dv"),
-     Tdd, Stmt("leaf", "lt", << S1("type", "tdd") >>),
+     TddOf("a"), Stmt("leaf", "lt", << S1("type", "tdd") >>),
      Leaf("ln"),
      Stmt("leaf", "lm", << S1("type", "string"), S1("mandatory", "true") >>),
      Stmt("leaf-list", "ll", << S1("type", "string"), S1("min-elements", 2), S1("max-elements", 5) >>),
